@@ -157,6 +157,17 @@ def _loader_chain(corpus):
             for a in c.args:
                 if isinstance(a, ast.Name) and a.id in ls.nested:
                     entries.append(ls.nested[a.id])
+                    continue
+                # a partial() kept in a local / a bound method handed to the executor
+                d = deref_at(ls.node, a) if isinstance(a, ast.Name) else a
+                if isinstance(d, ast.Call) and (dotted(d.func) or '').endswith('partial') and d.args:
+                    d = d.args[0]
+                if isinstance(d, ast.Name) and d.id in ls.nested and ls.nested[d.id] not in entries:
+                    entries.append(ls.nested[d.id])
+                elif isinstance(d, ast.Attribute) and isinstance(d.value, ast.Name) and d.value.id == 'self':
+                    m = corpus.method(repo_cls(corpus), d.attr)
+                    if m is not None and m not in entries and any(True for _ in self_calls(m.node, {'_download_snapshot_threadsafe', '_download_threadsafe', '_get_cached'})):
+                        entries.append(m)
     if not entries:
         raise AnalysisError('C02.R3: no thread entry submitted by _load_snapshots')
     chain = list(entries)
@@ -260,6 +271,13 @@ def r3_skip_whitelist(ctx):
     from ..cfg import cfg_of
 
     lcfg = cfg_of(ls.node)
+    # names under which a loader entry is handed to the executor: the entry itself or a local bound to partial(entry, ..)
+    entry_names = {e.name for e in entries}
+    for a_ in walk_local(ls.node):
+        if isinstance(a_, ast.Assign) and len(a_.targets) == 1 and isinstance(a_.targets[0], ast.Name) and isinstance(a_.value, ast.Call) and (dotted(a_.value.func) or '').endswith('partial') and a_.value.args:
+            f0 = a_.value.args[0]
+            if (isinstance(f0, ast.Name) and f0.id in entry_names) or (isinstance(f0, ast.Attribute) and f0.attr in entry_names):
+                entry_names.add(a_.targets[0].id)
     loops = [l for l in walk_local(ls.node) if isinstance(l, (ast.For, ast.AsyncFor)) and any(isinstance(a, ast.Attribute) and a.attr == 'list_files' for a in ast.walk(l.iter))]
     # comprehension form: {submit(loader, entry, path): path async for path in <listing>} - no filter clause allowed
     from ..cfg import deref_at as _deref_at
@@ -274,7 +292,7 @@ def r3_skip_whitelist(ctx):
     for cm, g in comps:
         parts = [cm.key, cm.value] if isinstance(cm, ast.DictComp) else [cm.elt]
         tname = getattr(g.target, 'id', None)
-        submits = [c for p_ in parts for c in ast.walk(p_) if isinstance(c, ast.Call) and isinstance(c.func, ast.Attribute) and c.func.attr in ('run_in_executor', 'submit') and any(isinstance(a, ast.Name) and a.id in {e.name for e in entries} for a in c.args) and any(isinstance(a, ast.Name) and a.id == tname for a in c.args)]
+        submits = [c for p_ in parts for c in ast.walk(p_) if isinstance(c, ast.Call) and isinstance(c.func, ast.Attribute) and c.func.attr in ('run_in_executor', 'submit') and any((isinstance(a, ast.Name) and a.id in entry_names) or (isinstance(a, ast.Attribute) and a.attr in entry_names) for a in c.args) and any(isinstance(a, ast.Name) and a.id == tname for a in c.args)]
         ctx.check(
             bool(submits) and not g.ifs,
             'C02.R3',
@@ -286,7 +304,7 @@ def r3_skip_whitelist(ctx):
         )
     ctx.floor('C02.R3', 'loop over the snapshot listing', len(loops) + len(comps))
     for l in loops:
-        subs = [enclosing_stmt(c) for c in calls_in(l) if isinstance(c.func, ast.Attribute) and c.func.attr in ('run_in_executor', 'submit') and any(isinstance(a, ast.Name) and a.id in {e.name for e in entries} for a in c.args) and any(isinstance(a, ast.Name) and a.id == getattr(l.target, 'id', None) for a in c.args)]
+        subs = [enclosing_stmt(c) for c in calls_in(l) if isinstance(c.func, ast.Attribute) and c.func.attr in ('run_in_executor', 'submit') and any((isinstance(a, ast.Name) and a.id in entry_names) or (isinstance(a, ast.Attribute) and a.attr in entry_names) for a in c.args) and any(isinstance(a, ast.Name) and a.id == getattr(l.target, 'id', None) for a in c.args)]
         sub_ok = [x for st in subs for x in lcfg.nodes_of(st, 'ok')]
         heads = lcfg.nodes_of(l, 'loop')
         bad = None
@@ -318,6 +336,7 @@ def r3_skip_whitelist(ctx):
             '_load_snapshots drops a loaded result only when it `is None`',
             f'_load_snapshots drops loaded snapshots on `{src(t)}`',
         )
+    shared.local_listing_errors_propagate(ctx, 'C02.R3')
     shared.no_swallowed_backend_errors(ctx, 'C02.R3', scope_pred=lambda f: any(f is c or f.parent is c for c in [ls] + chain) or f is ls)
 
 
@@ -611,12 +630,26 @@ def run(ctx):
     from .c14 import r5_no_stale_key_state
 
     r5_no_stale_key_state(Relabel(ctx, 'C02.R10'))
+    # an object that exists under a chunk / snapshot name holds the complete bytes that were written for it: later
+    # snapshots skip the upload on the strength of that name, so a short object would damage every snapshot referencing it
+    from .c03 import r4_local_atomic
+
+    r4_local_atomic(Relabel(ctx, 'C02.R11'))
+    # ... and those bytes are the ones whose digest names the object: the record handed to the upload workers is built in
+    # the iteration that produced the chunk, from values computed for that chunk (a stale payload under a fresh name
+    # would replace / pre-empt the right object for every snapshot that references the digest)
+    from .c01 import r3b_chunk_record_fresh
+
+    r3b_chunk_record_fresh(ctx, rule='C02.R11')
     roles = DeleteRoles(ctx.corpus)
     ctx.analysed(roles.fn, *roles.fn.all_nested())
     from .shared import stale_loop_variables
 
     _gc = [ctx.corpus.func('repository', 'Repository.clean'), roles.fn, ctx.corpus.func('repository', 'Repository._load_snapshots')]
     stale_loop_variables(ctx, 'C02.R1', _gc + [n for g in _gc for n in g.all_nested()], 'reference / keep set')
+    from .shared import leftover_from_finished_loop
+
+    leftover_from_finished_loop(ctx, 'C02.R1', _gc + [n for g in _gc for n in g.all_nested()], 'reference / keep set')
     sub = r1_keep_set(ctx, roles)
     r1_clean_all(ctx)
     r2_unfiltered(ctx)
